@@ -175,6 +175,18 @@ def bools_stream(res, rng, tier):
                 res.note_case(repr(case), True)
                 try:
                     out = bools_to_categorical(df)
+                    # code-model: the row's integer mask and the column positions its label names (extracted Coq)
+                    mresp = DRV.ask([sx(["bool_labels", m.astype(int).tolist()])])[0]
+                    for i in range(r):
+                        model_cols = [cols[int(j)] for j in mresp[i][1]]
+                        model_lab = " & ".join(model_cols) if model_cols else "None"
+                        if str(out.iloc[i]) != model_lab:
+                            res.model_mismatches.append(dict(case=case, impl=str(out.iloc[i]), model=model_lab))
+                            break
+                    masks = [int(x[0]) for x in mresp]
+                    codes = list(out.cat.codes)
+                    if any((masks[a] == masks[b]) != (codes[a] == codes[b]) for a in range(r) for b in range(r)):
+                        res.model_mismatches.append(dict(case=case, impl="codes " + str(codes), model="masks " + str(masks)))
                     for i in range(r):
                         lab = str(out.iloc[i])
                         named = set() if lab == "None" else set(lab.split(" & "))
@@ -226,6 +238,11 @@ def cut_stream(res, rng, tier):
         res.count("cut_kind", "int" if is_int else "float")
         try:
             out = pretty_cut(x, bins)
+            if is_int:
+                # code-model: searchsorted on the sorted edges (extracted Coq bin_code)
+                mcodes = [int(z) for z in DRV.ask([sx(["bin_codes", sorted(bins), xs])])[0]]
+                if list(out.codes) != mcodes:
+                    res.model_mismatches.append(dict(case=case, impl=str(list(out.codes)), model=str(mcodes)))
             for i, v in enumerate(xs):
                 lab = out[i]
                 if v is None:
@@ -250,6 +267,8 @@ def run(res, tier="quick", seed=0, widen=False):
                 "model of the chunked reduction; 2-D sum/min/max on both axes; nb_dot on small integer/float matrices as array / pandas / polars frame vs a @ b; "
                 "bools_to_categorical on every boolean frame up to 3x3 (4x4 sampled in thorough); pretty_cut on seeded value/edge grids incl. values equal to edges, "
                 "outside all edges, nulls, unsorted edges; non-trivial = has a null or several threads (nanops), every case otherwise; distinct = canonical case")
+    global DRV
+    DRV = Driver()
     nanops_stream(res, rng, tier)
     dot_stream(res, rng, tier)
     bools_stream(res, rng, tier)
